@@ -749,9 +749,10 @@ def rule_copy(ctx, px):
     unit_ = [f]
     for g_ in unit_:
         for c_ in ast.walk(g_.node):
-            if isinstance(c_, ast.Call) and isinstance(c_.func, ast.Attribute) and isinstance(c_.func.value, ast.Name) and c_.func.value.id in ("self", "cls") \
-                    and f.cls is not None and c_.func.attr in f.cls.methods and c_.func.attr.startswith("_") and f.cls.methods[c_.func.attr] not in unit_ and len(unit_) < 5:
-                unit_.append(f.cls.methods[c_.func.attr])
+            # called, or handed on as a function (`map(self._split, lines)`)
+            if isinstance(c_, ast.Attribute) and isinstance(c_.value, ast.Name) and c_.value.id in ("self", "cls") \
+                    and f.cls is not None and c_.attr in f.cls.methods and c_.attr.startswith("_") and f.cls.methods[c_.attr] not in unit_ and len(unit_) < 5:
+                unit_.append(f.cls.methods[c_.attr])
     pairs = []
     for g_ in unit_:
         for st, gd in pyfront.walk_guarded(g_.node.body):
